@@ -65,8 +65,8 @@ WRONG_DBC = ["BO_ abc F: 8 E1", "BO_ 16 F: x E1", "BO_TX_BU_ abc : E1;", "SIG_VA
              "SG_MUL_VAL_ {fid} nosuchsignal {sig} 1-1;"]
 RAISES = {"BO_ abc F: 8 E1", "BO_ 16 F: x E1", "SIG_VALTYPE_ abc s : 1;", "SIG_GROUP_ abc g 1 : s;", "SG_MUL_VAL_ {fid} {sig} {sig} x-y;"}
 MATCHOK = {"SG_MUL_VAL_ {fid} nosuchsignal {sig} 1-1;"}
-UNKNOWN_SYM = ["FOO=bar", "XYZ", "Len=8", "Color=red"]
-BAD_SYM = ["Var=x unsigned", "Var=x unsigned a,b", "Var=x nosuchtype 0,8", "DLC=abc", "Var=", "Mux=m 0,x 1", "CycleTime=abc", "ID=zzzh"]
+UNKNOWN_SYM = ["FOO=bar", "XYZ", "Len=8", "Color=red", "Type=Extnded", "Type=", "Type=29"]
+BAD_SYM = ["Type", "Var=x unsigned", "Var=x unsigned a,b", "Var=x nosuchtype 0,8", "DLC=abc", "Var=", "Mux=m 0,x 1", "CycleTime=abc", "ID=zzzh"]
 
 
 def allowed_positions_dbc(lines):
@@ -120,7 +120,21 @@ def gen_text(rng, fmt):
         if rng.random() < 0.3:
             f["comment"] = "first line\nsecond line of the comment"
     db = c14.build(d)
-    return M.export_bytes(db, fmt).decode("iso-8859-1")
+    text = M.export_bytes(db, fmt).decode("iso-8859-1")
+    if fmt == "dbc" and rng.random() < 0.5:
+        # the order of the SG_ lines of a frame is free: a multiplexed signal may stand before its multiplexer
+        out, block = [], []
+        for line in text.split("\n"):
+            if line.startswith(" SG_ "):
+                block.append(line)
+                continue
+            if block:
+                rng.shuffle(block)
+                out.extend(block)
+                block = []
+            out.append(line)
+        text = "\n".join(out + block)
+    return text
 
 
 def gen(rng, tier, shard, nshards):
